@@ -446,9 +446,18 @@ impl Execute for ast::Pipeline {
             )
         {
             if shell.traps().handles(crate::traps::TrapSignal::Err) {
-                shell
+                let handler_result = shell
                     .invoke_trap_handler(crate::traps::TrapSignal::Err, &params)
                     .await?;
+
+                // N.B. An `exit` run by the handler ends the shell; it is not just the
+                // handler's own business.
+                if matches!(
+                    handler_result.next_control_flow,
+                    ExecutionControlFlow::ExitShell
+                ) {
+                    return Ok(handler_result);
+                }
             }
         }
 
